@@ -158,11 +158,9 @@ PROPS = {
     ),
     "C05": dict(
         suites=[("e2e_c05", 150, 4000), ("c05sched", 3000, 60000), ("c05cmp", 3000, 60000)],
-        # the literal 0.0001 of dtypeutils.AlmostEquals as go2lean renders it (200-bit binary expansion of the decimal)
-        facts={"AlmostEquals.literals": ["(1316403645856964833723975346045880403986188692506863890678887 / 13164036458569648337239753460458804039861886925068638906788872192 : Rat)"]},
-        trusted_base=["float64 rounding is a parameter of the comparator model (rnd with rnd 0 = 0 < rnd 0.0001); the Oracle instantiates it with a Lean round-to-nearest-even that the correspondence run validates against Go arithmetic; strconv.ParseFloat and fmt.Sprintf(\"%f\") results travel on the op line",
+        trusted_base=["float64 rounding (float64(int)) is a parameter of the comparator model; the Oracle instantiates it with a Lean round-to-nearest-even that the correspondence run validates against Go arithmetic; strconv.ParseFloat and fmt.Sprintf(\"%f\") results travel on the op line",
                       "harness/cmd/overlaygen/c05.go copies Searcher.Fetch / fetchRRCs / initializeQSRs textually from the working tree and redirects only getBlocks' metadata look-ups and readSortedRRCs' file reads to synthetic blocks"],
-        decided_by_proof="block scheduler of the searcher (sortBlocks, getNextBlocks, getValidRRCs, cut-off handling over segment requests, unsentRRCs bookkeeping): for every well-formed set of overlapping segments/blocks, every maxBlocks and every number of Fetch calls the released stream is sorted (both modes); at EOF it is a permutation of all matches; newest-first always reaches EOF within 2(#segments+#blocks)+4 calls; first n released = n newest. sort comparator (compareValues/less, all ops, asc/desc, multi-key): strict weak order on every record set whose numeric values are finite and pairwise equal or at least the tolerance apart (counterexample theorems for values closer than 1e-4 and for NaN). pages partition the result; scroll and head are chunk-invariant",
+        decided_by_proof="block scheduler of the searcher (sortBlocks, getNextBlocks, getValidRRCs, cut-off handling over segment requests, unsentRRCs bookkeeping): for every well-formed set of overlapping segments/blocks, every maxBlocks and every number of Fetch calls the released stream is sorted (both modes); at EOF it is a permutation of all matches; newest-first always reaches EOF within 2(#segments+#blocks)+4 calls; first n released = n newest. sort comparator (compareValues/less, all ops, asc/desc, multi-key): strict weak order for ALL values (numbers at any distance, ±Inf, NaN, numeric strings, bool, null) and every key list — proved at full strength after the compareFloat fix; the old tolerance comparator is kept as lessOld with its three counterexample theorems. pages partition the result; scroll and head are chunk-invariant",
         partial="the OLDEST-first mode (recentLast, selected by no query path) can leave records in unsentRRCs for ever: counterexample theorem, known finding. sort-index sub-search (fetchColumnSortedRRCs), MergeIQRs/GetTopN/IQR.Sort plumbing, anyOrder mode, head with a condition: correspondence / end-to-end only. newest-first order, limits and paging of whole queries: end-to-end differential against the specification (e2e_c05)",
         assumptions=["segment requests are ordered by sort.Slice in initializeQSRs; the model uses a stable sort, which coincides with sort.Slice below 13 elements (generators stay below); the order among requests with equal keys affects batch boundaries only, not the theorems"],
     ),
